@@ -1,109 +1,219 @@
-(* Proofs/C18Bisect.v -- invariants of the fit_quantile bisection (real-number semantics of the GENERATED loop pieces),
-   for every oracle `ratio : nat -> R` (what the refits do to the empirical quantile is not assumed). *)
+(* Proofs/C18Bisect.v -- invariants of the fit_quantile bisection (GENERATED loop pieces), for every oracle
+   `ratio : nat -> R` (what the refits do to the empirical quantile is not assumed).
+   Section Rounded: every arithmetic result passes through `rnd`, about which only the IEEE-style contract is assumed
+   (monotone, identity on the format, lands in the format, format closed under doubling, 0 and 1 in the format).
+   Exact real arithmetic is the instance rnd = identity (Section closed: `rid`), where the stall exit is never taken. *)
 From Coq Require Import Reals ZArith Bool List Lra Lia.
 From PG Require Import Base.Ops Gen.FitQuantile Model.FitQuantile.
 Open Scope R_scope.
 
-Lemma fq_loop_preserves (P : fqst -> Prop) quantile tol max_iter ratio :
-  (forall s, P s -> fq_running max_iter s = true -> P (fq_body quantile tol (ratio (q_refits s)) s)) ->
-  forall fuel s, P s -> P (fq_loop fuel quantile tol max_iter ratio s).
+Lemma fq_Reqb_true a b : fq_Reqb a b = true <-> a = b.
+Proof. unfold fq_Reqb. destruct (Req_EM_T a b); split; auto; discriminate. Qed.
+Lemma fq_Reqb_false a b : fq_Reqb a b = false <-> a <> b.
+Proof. unfold fq_Reqb. destruct (Req_EM_T a b); split; auto; try discriminate. intros; contradiction. Qed.
+Lemma stall_true e mn mx : Gen_fq_stall e mn mx = true <-> (e = mn \/ e = mx).
+Proof. unfold Gen_fq_stall. rewrite orb_true_iff, !fq_Reqb_true. tauto. Qed.
+Lemma stall_false e mn mx : Gen_fq_stall e mn mx = false <-> (e <> mn /\ e <> mx).
+Proof. unfold Gen_fq_stall. rewrite orb_false_iff, !fq_Reqb_false. tauto. Qed.
+
+Lemma fq_loop_preserves rnd (P : fqst -> Prop) quantile tol max_iter ratio :
+  (forall s, P s -> fq_running max_iter s = true -> P (fq_body rnd quantile tol (ratio (q_refits s)) s)) ->
+  forall fuel s, P s -> P (fq_loop rnd fuel quantile tol max_iter ratio s).
 Proof. intros Hstep. induction fuel as [|f IH]; intros s Hs; cbn [fq_loop]; [exact Hs|].
   destruct (fq_running max_iter s) eqn:E; [|exact Hs]. apply IH. apply Hstep; assumption. Qed.
 
-(* ---- one non-breaking pass keeps the expectile strictly inside the (shrinking) bracket and moves it the right way ---- *)
-Lemma fq_body_inv quantile tol r s : fq_inv s -> fq_inv (fq_body quantile tol r s).
-Proof. unfold fq_inv, fq_body. intros (H0 & H1 & H2 & H3).
-  destruct (Gen_fq_within_tol r quantile tol); cbn [q_min q_max q_e]; [lra|].
-  unfold Gen_fq_bracket, Gen_fq_new_expectile. destruct (Gen_fq_branch_test r quantile); cbn [fst snd]; lra. Qed.
+Lemma running_flags max_iter s : fq_running max_iter s = true ->
+  q_broke s = false /\ q_stalled s = false /\ Gen_fq_guard (q_n s) max_iter = true.
+Proof. unfold fq_running. intros H. apply andb_true_iff in H as [H Hg]. apply andb_true_iff in H as [Hb Hs].
+  apply negb_true_iff in Hb. apply negb_true_iff in Hs. auto. Qed.
 
-Lemma fq_init_inv e0 : 0 < e0 < 1 -> fq_inv (fq_init e0).
-Proof. unfold fq_inv, fq_init, Gen_fq_init_min, Gen_fq_init_max. cbn. lra. Qed.
+Section Rounded.
+Variable rnd : R -> R.
+Variable fmt : R -> Prop.
+Hypothesis rnd_le : forall x y, x <= y -> rnd x <= rnd y.
+Hypothesis rnd_fmt : forall x, fmt x -> rnd x = x.
+Hypothesis fmt_rnd : forall x, fmt (rnd x).
+Hypothesis fmt_double : forall x, fmt x -> fmt (2 * x).
+Hypothesis fmt_0 : fmt 0.
+Hypothesis fmt_1 : fmt 1.
 
-Lemma fq_body_direction quantile tol r s : fq_inv s -> Gen_fq_within_tol r quantile tol = false ->
-  let s' := fq_body quantile tol r s in
-  (r < quantile -> q_e s < q_e s' /\ q_e s' < q_max s /\ q_min s' = q_e s /\ q_max s' = q_max s) /\
-  (quantile <= r -> q_e s' < q_e s /\ q_min s < q_e s' /\ q_max s' = q_e s /\ q_min s' = q_min s) /\
-  (0 < tol -> r <> quantile) /\
-  q_max s' - q_min s' < q_max s - q_min s /\ q_e s' = (q_min s' + q_max s') / 2.
-Proof. intros (H0 & H1 & H2 & H3) Hw. unfold fq_body. rewrite Hw. cbn [q_min q_max q_e].
-  unfold Gen_fq_bracket, Gen_fq_new_expectile, Gen_fq_branch_test.
-  split; [|split; [|split; [|split]]].
-  - intros Hlt. rewrite (proj2 (Rltb_true _ _) Hlt). cbn. repeat split; lra.
-  - intros Hlt. rewrite (proj2 (Rltb_false _ _) Hlt). cbn. repeat split; lra.
-  - intros Ht E. subst r. unfold Gen_fq_within_tol in Hw. apply Rleb_false in Hw.
-    replace (quantile - quantile) with 0 in Hw by ring. rewrite Rabs_R0 in Hw. lra.
-  - destruct (Rltb r quantile); cbn; lra.
-  - destruct (Rltb r quantile); cbn; lra.
-Qed.
+(* the (rounded) midpoint of a bracket with representable ends never leaves the bracket ... *)
+Lemma midpoint_in_bracket mn mx : fmt mn -> fmt mx -> mn <= mx ->
+  mn <= Gen_fq_new_expectile rnd mn mx <= mx.
+Proof. intros Fn Fx Hle. unfold Gen_fq_new_expectile.
+  assert (L : 2 * mn <= rnd (mx + mn)). { rewrite <- (rnd_fmt (2 * mn)) by (apply fmt_double; exact Fn). apply rnd_le. lra. }
+  assert (U : rnd (mx + mn) <= 2 * mx). { rewrite <- (rnd_fmt (2 * mx)) by (apply fmt_double; exact Fx). apply rnd_le. lra. }
+  split.
+  - rewrite <- (rnd_fmt mn Fn) at 1. apply rnd_le. lra.
+  - rewrite <- (rnd_fmt mx Fx) at 2. apply rnd_le. lra. Qed.
+(* ... so it is an end of the bracket (the stall exit) or strictly inside it *)
+Lemma midpoint_trichotomy mn mx : fmt mn -> fmt mx -> mn <= mx ->
+  let e' := Gen_fq_new_expectile rnd mn mx in (e' = mn \/ e' = mx) \/ (mn < e' < mx).
+Proof. intros Fn Fx Hle e'. destruct (midpoint_in_bracket mn mx Fn Fx Hle) as [A B]. fold e' in A, B.
+  destruct (Req_dec e' mn) as [E1|N1]; [left; left; exact E1|]. destruct (Req_dec e' mx) as [E2|N2]; [left; right; exact E2|].
+  right. lra. Qed.
 
-(* ---- the invariant along the whole run ---- *)
-Theorem fq_loop_inv quantile tol max_iter ratio e0 fuel : 0 < e0 < 1 ->
-  fq_inv (fq_loop fuel quantile tol max_iter ratio (fq_init e0)).
-Proof. intros He. apply fq_loop_preserves; [|apply fq_init_inv; exact He]. intros s Hs _. apply fq_body_inv; exact Hs. Qed.
+Definition fq_invf (s : fqst) : Prop := fq_inv s /\ fmt (q_min s) /\ fmt (q_max s) /\ fmt (q_e s).
+
+Lemma fq_init_inv e0 : 0 < e0 < 1 -> fmt e0 -> fq_invf (fq_init e0).
+Proof. unfold fq_invf, fq_inv, fq_init, Gen_fq_init_min, Gen_fq_init_max. cbn. intros. repeat split; try lra; assumption. Qed.
+
+Lemma bracket_cases r quantile mn mx e :
+  Gen_fq_bracket r quantile mn mx e = (if Rltb r quantile then (e, mx) else (mn, e)).
+Proof. reflexivity. Qed.
+
+Lemma fq_body_inv quantile tol r max_iter s : fq_invf s -> fq_running max_iter s = true -> fq_invf (fq_body rnd quantile tol r s).
+Proof. intros [(H0 & H1 & He & Hin) (Fn & Fx & Fe)] Hrun. destruct (running_flags _ _ Hrun) as (_ & Hst & _).
+  destruct (Hin Hst) as [Hlo Hhi]. unfold fq_body.
+  destruct (Gen_fq_within_tol rnd r quantile tol).
+  { unfold fq_invf, fq_inv. cbn [q_min q_max q_e q_stalled]. repeat split; try assumption; lra. }
+  rewrite bracket_cases. destruct (Rltb r quantile); cbn [fst snd].
+  - destruct (midpoint_trichotomy (q_e s) (q_max s) Fe Fx ltac:(lra)) as [St|In].
+    + rewrite (proj2 (stall_true _ _ _) St). unfold fq_invf, fq_inv. cbn [q_min q_max q_e q_stalled].
+      repeat split; try assumption; try lra; discriminate.
+    + assert (Sf : Gen_fq_stall (Gen_fq_new_expectile rnd (q_e s) (q_max s)) (q_e s) (q_max s) = false) by (apply stall_false; lra).
+      rewrite Sf. unfold fq_invf, fq_inv. cbn [q_min q_max q_e q_stalled].
+      repeat split; try assumption; try lra. unfold Gen_fq_new_expectile. apply fmt_rnd.
+  - destruct (midpoint_trichotomy (q_min s) (q_e s) Fn Fe ltac:(lra)) as [St|In].
+    + rewrite (proj2 (stall_true _ _ _) St). unfold fq_invf, fq_inv. cbn [q_min q_max q_e q_stalled].
+      repeat split; try assumption; try lra; discriminate.
+    + assert (Sf : Gen_fq_stall (Gen_fq_new_expectile rnd (q_min s) (q_e s)) (q_min s) (q_e s) = false) by (apply stall_false; lra).
+      rewrite Sf. unfold fq_invf, fq_inv. cbn [q_min q_max q_e q_stalled].
+      repeat split; try assumption; try lra. unfold Gen_fq_new_expectile. apply fmt_rnd. Qed.
+
+Theorem fq_loop_inv quantile tol max_iter ratio e0 fuel : 0 < e0 < 1 -> fmt e0 ->
+  fq_invf (fq_loop rnd fuel quantile tol max_iter ratio (fq_init e0)).
+Proof. intros He Fe. apply fq_loop_preserves; [|apply fq_init_inv; assumption]. intros s Hs Hr. eapply fq_body_inv; eassumption. Qed.
 
 Lemma fq_inv_in_range s : fq_inv s -> Gen_expectile_out_of_range (q_e s) = false.
 Proof. unfold fq_inv, Gen_expectile_out_of_range. intros (H0 & H1 & H2 & H3).
   apply orb_false_iff; split; apply Rleb_false; lra. Qed.
 
-(* ---- counting: n_iter counts the refits, never exceeds the budget ---- *)
+(* one pass that neither breaks nor stalls moves the expectile strictly toward the side indicated by ratio - quantile, inside the old
+   bracket, and strictly shrinks the bracket; a stalled pass leaves expectile and counters untouched *)
+Lemma fq_body_direction quantile tol r max_iter s : fq_invf s -> fq_running max_iter s = true ->
+  Gen_fq_within_tol rnd r quantile tol = false ->
+  let s' := fq_body rnd quantile tol r s in
+  (q_stalled s' = true -> q_e s' = q_e s /\ q_refits s' = q_refits s /\ q_n s' = q_n s /\
+       Gen_fq_stall (Gen_fq_new_expectile rnd (q_min s') (q_max s')) (q_min s') (q_max s') = true) /\
+  (q_stalled s' = false ->
+     (r < quantile -> q_e s < q_e s' /\ q_e s' < q_max s /\ q_min s' = q_e s /\ q_max s' = q_max s) /\
+     (quantile <= r -> q_e s' < q_e s /\ q_min s < q_e s' /\ q_max s' = q_e s /\ q_min s' = q_min s) /\
+     q_max s' - q_min s' < q_max s - q_min s /\ q_e s' = Gen_fq_new_expectile rnd (q_min s') (q_max s') /\
+     q_refits s' = S (q_refits s)) /\
+  (0 < tol -> r <> quantile).
+Proof. intros [(H0 & H1 & He & Hin) (Fn & Fx & Fe)] Hrun Hw. destruct (running_flags _ _ Hrun) as (_ & Hst & _).
+  destruct (Hin Hst) as [Hlo Hhi]. unfold fq_body. rewrite Hw. rewrite bracket_cases.
+  split; [|split].
+  - destruct (Rltb r quantile); cbn [fst snd];
+      match goal with |- context [Gen_fq_stall ?e ?a ?b] => destruct (Gen_fq_stall e a b) eqn:St end;
+      cbn [q_stalled q_e q_refits q_n q_min q_max]; intros Hs; try discriminate; repeat split; try reflexivity; exact St.
+  - destruct (Rltb r quantile) eqn:Hb; cbn [fst snd];
+      match goal with |- context [Gen_fq_stall ?e ?a ?b] => destruct (Gen_fq_stall e a b) eqn:St end;
+      cbn [q_stalled q_e q_refits q_n q_min q_max]; intros Hs; try discriminate.
+    + apply stall_false in St. destruct (midpoint_in_bracket (q_e s) (q_max s) Fe Fx ltac:(lra)) as [A B].
+      apply Rltb_true in Hb. repeat split; try reflexivity; try lra.
+    + apply stall_false in St. destruct (midpoint_in_bracket (q_min s) (q_e s) Fn Fe ltac:(lra)) as [A B].
+      apply Rltb_false in Hb. repeat split; try reflexivity; try lra.
+  - intros Ht E. subst r. unfold Gen_fq_within_tol in Hw. apply Rleb_false in Hw.
+    replace (quantile - quantile) with 0 in Hw by ring. rewrite (rnd_fmt 0 fmt_0), Rabs_R0 in Hw. lra. Qed.
+End Rounded.
+
+(* ---------------- counting, history, termination: independent of the arithmetic ---------------- *)
 Definition fq_count (max_iter : Z) (s : fqst) : Prop :=
   q_n s = Z.of_nat (q_refits s) /\ (q_n s <= Z.max 0 max_iter)%Z.
-Lemma fq_body_count quantile tol max_iter r s : fq_count max_iter s -> fq_running max_iter s = true -> fq_count max_iter (fq_body quantile tol r s).
-Proof. unfold fq_count, fq_running, fq_body, Gen_fq_guard, Gen_fq_n_iter_step. intros [Hn Hle] Hrun.
-  apply andb_true_iff in Hrun as [_ Hg]. apply Z.ltb_lt in Hg.
-  destruct (Gen_fq_within_tol r quantile tol); cbn [q_n q_refits]; split; try assumption; lia. Qed.
-Theorem fq_loop_count quantile tol max_iter ratio e0 fuel :
-  fq_count max_iter (fq_loop fuel quantile tol max_iter ratio (fq_init e0)).
+Lemma fq_body_count rnd quantile tol max_iter r s : fq_count max_iter s -> fq_running max_iter s = true -> fq_count max_iter (fq_body rnd quantile tol r s).
+Proof. unfold fq_count. intros [Hn Hle] Hrun. destruct (running_flags _ _ Hrun) as (_ & _ & Hg).
+  unfold Gen_fq_guard in Hg. apply Z.ltb_lt in Hg. unfold fq_body, Gen_fq_n_iter_step.
+  destruct (Gen_fq_within_tol rnd r quantile tol); cbn [q_n q_refits]; [split; assumption|].
+  destruct (Gen_fq_stall _ _ _); cbn [q_n q_refits]; split; try assumption; lia. Qed.
+Theorem fq_loop_count rnd quantile tol max_iter ratio e0 fuel :
+  fq_count max_iter (fq_loop rnd fuel quantile tol max_iter ratio (fq_init e0)).
 Proof. apply fq_loop_preserves.
   - intros s Hs Hr. apply fq_body_count; assumption.
   - unfold fq_count, fq_init, Gen_fq_init_n_iter. cbn. lia. Qed.
 
-(* ---- exit: no earlier pass was within tol; a break means the current ratio is within tol ---- *)
-Definition fq_hist quantile tol (ratio : nat -> R) (s : fqst) : Prop :=
-  (forall j, (j < q_refits s)%nat -> Gen_fq_within_tol (ratio j) quantile tol = false) /\
-  (q_broke s = true -> Gen_fq_within_tol (ratio (q_refits s)) quantile tol = true).
-Lemma fq_body_hist quantile tol max_iter ratio s : fq_hist quantile tol ratio s -> fq_running max_iter s = true ->
-  fq_hist quantile tol ratio (fq_body quantile tol (ratio (q_refits s)) s).
-Proof. unfold fq_hist, fq_running, fq_body. intros [Hj Hb] Hrun. apply andb_true_iff in Hrun as [Hnb _].
-  destruct (Gen_fq_within_tol (ratio (q_refits s)) quantile tol) eqn:E; cbn [q_refits q_broke].
-  - split; [exact Hj|]. intros _. exact E.
-  - split; [|discriminate]. intros j Hlt. destruct (Nat.eq_dec j (q_refits s)) as [->|Hne]; [exact E|]. apply Hj. lia. Qed.
-Theorem fq_loop_hist quantile tol max_iter ratio e0 fuel :
-  fq_hist quantile tol ratio (fq_loop fuel quantile tol max_iter ratio (fq_init e0)).
+(* no earlier pass was within tol; a tol-break means the current ratio is within tol; a stall-break means the new value of
+   the current bracket equals one of its ends *)
+Definition fq_hist rnd quantile tol (ratio : nat -> R) (s : fqst) : Prop :=
+  (forall j, (j < q_refits s)%nat -> Gen_fq_within_tol rnd (ratio j) quantile tol = false) /\
+  (q_broke s = true -> Gen_fq_within_tol rnd (ratio (q_refits s)) quantile tol = true) /\
+  (q_stalled s = true -> Gen_fq_within_tol rnd (ratio (q_refits s)) quantile tol = false /\
+       Gen_fq_stall (Gen_fq_new_expectile rnd (q_min s) (q_max s)) (q_min s) (q_max s) = true) /\
+  (q_broke s = true -> q_stalled s = false).
+Lemma fq_body_hist rnd quantile tol max_iter ratio s : fq_hist rnd quantile tol ratio s -> fq_running max_iter s = true ->
+  fq_hist rnd quantile tol ratio (fq_body rnd quantile tol (ratio (q_refits s)) s).
+Proof. unfold fq_hist, fq_body. intros (Hj & Hb & Hs & Hx) Hrun.
+  destruct (Gen_fq_within_tol rnd (ratio (q_refits s)) quantile tol) eqn:E; cbn [q_refits q_broke q_stalled].
+  - repeat split; try assumption; try discriminate. intros _. exact E.
+  - match goal with |- context [if Gen_fq_stall ?e ?a ?b then _ else _] => destruct (Gen_fq_stall e a b) eqn:St end;
+      cbn [q_refits q_broke q_stalled q_min q_max].
+    + repeat split; try assumption; try discriminate.
+    + repeat split; try discriminate. intros j Hlt. destruct (Nat.eq_dec j (q_refits s)) as [->|Hne]; [exact E|]. apply Hj. lia. Qed.
+Theorem fq_loop_hist rnd quantile tol max_iter ratio e0 fuel :
+  fq_hist rnd quantile tol ratio (fq_loop rnd fuel quantile tol max_iter ratio (fq_init e0)).
 Proof. apply fq_loop_preserves.
   - intros s Hs Hr. eapply fq_body_hist; eassumption.
-  - unfold fq_hist, fq_init. cbn. split; [intros j Hj; lia|discriminate]. Qed.
+  - unfold fq_hist, fq_init. cbn. repeat split; try discriminate. intros j Hj; lia. Qed.
 
-(* ---- termination within max_iter passes: with that much fuel the loop has really stopped ---- *)
-Lemma fq_loop_stops quantile tol max_iter ratio : forall fuel s,
-  (q_broke s = true \/ (Z.to_nat (max_iter - q_n s) <= fuel)%nat) ->
-  fq_running max_iter (fq_loop fuel quantile tol max_iter ratio s) = false.
+Lemma fq_loop_stops rnd quantile tol max_iter ratio : forall fuel s,
+  (q_broke s = true \/ q_stalled s = true \/ (Z.to_nat (max_iter - q_n s) <= fuel)%nat) ->
+  fq_running max_iter (fq_loop rnd fuel quantile tol max_iter ratio s) = false.
 Proof. induction fuel as [|f IH]; intros s Hf; cbn [fq_loop].
-  - unfold fq_running, Gen_fq_guard. destruct (q_broke s); [reflexivity|]. destruct Hf as [Hf|Hf]; [discriminate|].
-    cbn. apply Z.ltb_ge. lia.
+  - unfold fq_running, Gen_fq_guard. destruct (q_broke s); [reflexivity|]. destruct (q_stalled s); [reflexivity|].
+    destruct Hf as [Hf|[Hf|Hf]]; try discriminate. cbn. apply Z.ltb_ge. lia.
   - destruct (fq_running max_iter s) eqn:E; [|exact E].
-    apply IH.
-    pose proof E as E'. unfold fq_running, Gen_fq_guard in E'. apply andb_true_iff in E' as [Hb Hg]. apply Z.ltb_lt in Hg.
-    apply negb_true_iff in Hb. destruct Hf as [Hf|Hf]; [congruence|].
-    unfold fq_body, Gen_fq_n_iter_step. destruct (Gen_fq_within_tol _ _ _); cbn [q_n q_broke]; [left; reflexivity|right; lia]. Qed.
+    apply IH. destruct (running_flags _ _ E) as (Hb & Hs & Hg). unfold Gen_fq_guard in Hg. apply Z.ltb_lt in Hg.
+    destruct Hf as [Hf|[Hf|Hf]]; try congruence.
+    unfold fq_body, Gen_fq_n_iter_step. destruct (Gen_fq_within_tol _ _ _ _); cbn [q_n q_broke q_stalled]; [left; reflexivity|].
+    destruct (Gen_fq_stall _ _ _); cbn [q_n q_broke q_stalled]; [right; left; reflexivity|right; right; lia]. Qed.
 
-Theorem fq_exit quantile tol max_iter ratio e0 :
-  let s := fq_loop (Z.to_nat max_iter) quantile tol max_iter ratio (fq_init e0) in
-  (* stopped *) fq_running max_iter s = false /\
-  (* at most max_iter refits, counted by n_iter *) (q_refits s <= Z.to_nat max_iter)%nat /\ q_n s = Z.of_nat (q_refits s) /\
-  (* no earlier exit was possible *) (forall j, (j < q_refits s)%nat -> Gen_fq_within_tol (ratio j) quantile tol = false) /\
-  (* exit iff within tol or budget exhausted *)
-  ((q_broke s = true /\ Gen_fq_within_tol (ratio (q_refits s)) quantile tol = true) \/
-   (q_broke s = false /\ q_refits s = Z.to_nat max_iter)).
+(* exit, any arithmetic: stopped after at most max_iter refits; by the tol-break iff within tol; by the stall-break only when the
+   bracket cannot be halved; else exactly max_iter refits were made *)
+Theorem fq_exit rnd quantile tol max_iter ratio e0 :
+  let s := fq_loop rnd (Z.to_nat max_iter) quantile tol max_iter ratio (fq_init e0) in
+  fq_running max_iter s = false /\
+  (q_refits s <= Z.to_nat max_iter)%nat /\ q_n s = Z.of_nat (q_refits s) /\
+  (forall j, (j < q_refits s)%nat -> Gen_fq_within_tol rnd (ratio j) quantile tol = false) /\
+  ((q_broke s = true /\ q_stalled s = false /\ Gen_fq_within_tol rnd (ratio (q_refits s)) quantile tol = true) \/
+   (q_broke s = false /\ q_stalled s = true /\ Gen_fq_within_tol rnd (ratio (q_refits s)) quantile tol = false /\
+      Gen_fq_stall (Gen_fq_new_expectile rnd (q_min s) (q_max s)) (q_min s) (q_max s) = true) \/
+   (q_broke s = false /\ q_stalled s = false /\ q_refits s = Z.to_nat max_iter)).
 Proof. intros s.
-  pose proof (fq_loop_count quantile tol max_iter ratio e0 (Z.to_nat max_iter)) as [Hn Hle]. fold s in Hn, Hle.
-  pose proof (fq_loop_hist quantile tol max_iter ratio e0 (Z.to_nat max_iter)) as [Hj Hb]. fold s in Hj, Hb.
+  pose proof (fq_loop_count rnd quantile tol max_iter ratio e0 (Z.to_nat max_iter)) as [Hn Hle]. fold s in Hn, Hle.
+  pose proof (fq_loop_hist rnd quantile tol max_iter ratio e0 (Z.to_nat max_iter)) as (Hj & Hb & Hs & Hx). fold s in Hj, Hb, Hs, Hx.
   assert (Hstop : fq_running max_iter s = false).
-  { apply fq_loop_stops. right. unfold fq_init, Gen_fq_init_n_iter. cbn [q_n]. lia. }
+  { apply fq_loop_stops. right. right. unfold fq_init, Gen_fq_init_n_iter. cbn [q_n]. lia. }
   repeat split; try assumption; [lia|].
   unfold fq_running, Gen_fq_guard in Hstop. destruct (q_broke s) eqn:B.
-  - left. split; [reflexivity|apply Hb; reflexivity].
-  - right. split; [reflexivity|]. cbn in Hstop. apply Z.ltb_ge in Hstop. lia. Qed.
+  - left. repeat split; [apply Hx; reflexivity|apply Hb; reflexivity].
+  - destruct (q_stalled s) eqn:St.
+    + right. left. destruct (Hs eq_refl) as [A C]. repeat split; assumption.
+    + right. right. repeat split. cbn in Hstop. apply Z.ltb_ge in Hstop. lia. Qed.
+
+(* ---------------- exact real arithmetic: rnd = identity ---------------- *)
+Definition rid (x : R) : R := x.
+Definition anyR (x : R) : Prop := True.
+Lemma rid_contract : (forall x y, x <= y -> rid x <= rid y) /\ (forall x, anyR x -> rid x = x) /\ (forall x, anyR (rid x)) /\
+  (forall x, anyR x -> anyR (2 * x)) /\ anyR 0 /\ anyR 1.
+Proof. unfold rid, anyR. repeat split; auto. Qed.
+
+(* in exact arithmetic the midpoint of a non-degenerate bracket is never one of its ends: the stall exit is dead code there *)
+Lemma exact_never_stalls mn mx : mn < mx -> Gen_fq_stall (Gen_fq_new_expectile rid mn mx) mn mx = false.
+Proof. intros H. apply stall_false. unfold Gen_fq_new_expectile, rid. lra. Qed.
+Definition fq_exact_inv (s : fqst) : Prop := fq_inv s /\ q_stalled s = false.
+Lemma fq_body_exact quantile tol r max_iter s : fq_exact_inv s -> fq_running max_iter s = true -> fq_exact_inv (fq_body rid quantile tol r s).
+Proof. intros [Hi Hs] Hrun. destruct rid_contract as (C1 & C2 & C3 & C4 & C5 & C6).
+  assert (Hf : fq_invf anyR s) by (unfold fq_invf, anyR; auto).
+  split; [apply (fq_body_inv rid anyR C1 C2 C3 C4 quantile tol r max_iter s Hf Hrun)|].
+  destruct Hi as (H0 & H1 & He & Hin). destruct (Hin Hs) as [Hlo Hhi].
+  unfold fq_body. destruct (Gen_fq_within_tol _ _ _ _); [reflexivity|]. rewrite bracket_cases.
+  destruct (Rltb r quantile); cbn [fst snd]; rewrite exact_never_stalls by lra; reflexivity. Qed.
+Theorem fq_loop_exact quantile tol max_iter ratio e0 fuel : 0 < e0 < 1 ->
+  fq_exact_inv (fq_loop rid fuel quantile tol max_iter ratio (fq_init e0)).
+Proof. intros He. apply fq_loop_preserves.
+  - intros s Hs Hr. eapply fq_body_exact; eassumption.
+  - split; [|reflexivity]. unfold fq_inv, fq_init, Gen_fq_init_min, Gen_fq_init_max. cbn. repeat split; lra. Qed.
 
 (* the argument checks of fit_quantile: exactly the quantiles outside (0,1), non-positive tol / max_iter are rejected *)
 Lemma fq_args quantile tol max_iter :
@@ -118,13 +228,81 @@ Proof. unfold Gen_fq_bad_quantile, Gen_fq_bad_tol, Gen_fq_bad_max_iter. split; [
 
 (* satisfiability witness: quantile 0.9, ratio 0.5 at expectile 0.5: one refit at expectile 0.75 with bracket (0.5, 1) *)
 Example fq_example :
-  let s := fq_loop 1 (9/10) (1/100) 20 (fun _ => 1/2) (fq_init (1/2)) in
-  q_refits s = 1%nat /\ q_broke s = false /\ q_e s = 3/4 /\ q_min s = 1/2 /\ q_max s = 1 /\ fq_inv s.
+  let s := fq_loop rid 1 (9/10) (1/100) 20 (fun _ => 1/2) (fq_init (1/2)) in
+  q_refits s = 1%nat /\ q_broke s = false /\ q_stalled s = false /\ q_e s = 3/4 /\ q_min s = 1/2 /\ q_max s = 1 /\ fq_inv s.
 Proof.
-  assert (W0 : Gen_fq_within_tol (1/2) (9/10) (1/100) = false).
-  { unfold Gen_fq_within_tol. apply Rleb_false. unfold Rabs. destruct (Rcase_abs _); lra. }
+  assert (W0 : Gen_fq_within_tol rid (1/2) (9/10) (1/100) = false).
+  { unfold Gen_fq_within_tol, rid. apply Rleb_false. unfold Rabs. destruct (Rcase_abs _); lra. }
   assert (B0 : Gen_fq_branch_test (1/2) (9/10) = true) by (apply Rltb_true; lra).
   assert (Rn : fq_running 20 (fq_init (1/2)) = true) by reflexivity.
   intros s. subst s. unfold fq_loop. rewrite Rn. unfold fq_body. rewrite W0. unfold Gen_fq_bracket. rewrite B0.
-  unfold fq_init, fq_inv, q_refits, q_broke, q_e, q_min, q_max, fst, snd, Gen_fq_new_expectile, Gen_fq_init_max.
-  repeat split; lra. Qed.
+  cbn [fst snd fq_init q_e q_max]. rewrite exact_never_stalls by (unfold Gen_fq_init_max; lra).
+  unfold fq_inv, q_refits, q_broke, q_stalled, q_e, q_min, q_max, Gen_fq_new_expectile, Gen_fq_init_max, rid.
+  repeat split; try lra; intros _; lra. Qed.
+
+(* ---------------- assembled statements (Props/C18.v) ---------------- *)
+Theorem bisect_rounded (rnd : R -> R) (fmt : R -> Prop) :
+  (forall x y, x <= y -> rnd x <= rnd y) -> (forall x, fmt x -> rnd x = x) -> (forall x, fmt (rnd x)) ->
+  (forall x, fmt x -> fmt (2 * x)) -> fmt 0 -> fmt 1 ->
+  forall quantile tol max_iter (ratio : nat -> R) e0, 0 < e0 < 1 -> fmt e0 ->
+  (forall mn mx, fmt mn -> fmt mx -> mn <= mx ->
+     let e' := Gen_fq_new_expectile rnd mn mx in (e' = mn \/ e' = mx) \/ (mn < e' < mx)) /\
+  (forall fuel, let s := fq_loop rnd fuel quantile tol max_iter ratio (fq_init e0) in
+                fq_inv s /\ 0 < q_e s < 1 /\ Gen_expectile_out_of_range (q_e s) = false) /\
+  (forall s r, fq_invf fmt s -> fq_running max_iter s = true -> Gen_fq_within_tol rnd r quantile tol = false ->
+     let s' := fq_body rnd quantile tol r s in
+     (q_stalled s' = true -> q_e s' = q_e s /\ q_refits s' = q_refits s /\ q_n s' = q_n s /\
+        Gen_fq_stall (Gen_fq_new_expectile rnd (q_min s') (q_max s')) (q_min s') (q_max s') = true) /\
+     (q_stalled s' = false ->
+        (r < quantile -> q_e s < q_e s' /\ q_e s' < q_max s /\ q_min s' = q_e s /\ q_max s' = q_max s) /\
+        (quantile <= r -> q_e s' < q_e s /\ q_min s < q_e s' /\ q_max s' = q_e s /\ q_min s' = q_min s) /\
+        q_max s' - q_min s' < q_max s - q_min s /\ q_e s' = Gen_fq_new_expectile rnd (q_min s') (q_max s') /\
+        q_refits s' = S (q_refits s)) /\
+     (0 < tol -> r <> quantile)) /\
+  (let s := fq_loop rnd (Z.to_nat max_iter) quantile tol max_iter ratio (fq_init e0) in
+   fq_running max_iter s = false /\
+   (q_refits s <= Z.to_nat max_iter)%nat /\ q_n s = Z.of_nat (q_refits s) /\
+   (forall j, (j < q_refits s)%nat -> Gen_fq_within_tol rnd (ratio j) quantile tol = false) /\
+   ((q_broke s = true /\ q_stalled s = false /\ Gen_fq_within_tol rnd (ratio (q_refits s)) quantile tol = true) \/
+    (q_broke s = false /\ q_stalled s = true /\ Gen_fq_within_tol rnd (ratio (q_refits s)) quantile tol = false /\
+       Gen_fq_stall (Gen_fq_new_expectile rnd (q_min s) (q_max s)) (q_min s) (q_max s) = true) \/
+    (q_broke s = false /\ q_stalled s = false /\ q_refits s = Z.to_nat max_iter))).
+Proof. intros C1 C2 C3 C4 C5 C6 quantile tol max_iter ratio e0 He Fe. split; [|split; [|split]].
+  - intros mn mx. apply (midpoint_trichotomy rnd fmt C1 C2 C4).
+  - intros fuel s. assert (Hi' : fq_invf fmt s) by (subst s; apply fq_loop_inv; assumption). destruct Hi' as [Hi _].
+    split; [exact Hi|]. split; [destruct Hi as (_ & _ & H & _); exact H|apply fq_inv_in_range; exact Hi].
+  - intros s r Hs Hr Hw. eapply fq_body_direction; eassumption.
+  - apply fq_exit. Qed.
+
+Theorem bisect_exact quantile tol max_iter (ratio : nat -> R) e0 : 0 < e0 < 1 ->
+  (forall fuel, let s := fq_loop rid fuel quantile tol max_iter ratio (fq_init e0) in
+                0 <= q_min s /\ q_min s < q_e s /\ q_e s < q_max s /\ q_max s <= 1 /\ 0 < q_e s < 1 /\ q_stalled s = false /\
+                Gen_expectile_out_of_range (q_e s) = false) /\
+  (forall s r, fq_inv s -> fq_running max_iter s = true -> Gen_fq_within_tol rid r quantile tol = false ->
+     let s' := fq_body rid quantile tol r s in
+     (r < quantile -> q_e s < q_e s' /\ q_e s' < q_max s /\ q_min s' = q_e s /\ q_max s' = q_max s) /\
+     (quantile <= r -> q_e s' < q_e s /\ q_min s < q_e s' /\ q_max s' = q_e s /\ q_min s' = q_min s) /\
+     (0 < tol -> r <> quantile) /\
+     q_max s' - q_min s' < q_max s - q_min s /\ q_e s' = (q_max s' + q_min s') / 2 /\ q_refits s' = S (q_refits s)) /\
+  (let s := fq_loop rid (Z.to_nat max_iter) quantile tol max_iter ratio (fq_init e0) in
+   fq_running max_iter s = false /\
+   (q_refits s <= Z.to_nat max_iter)%nat /\ q_n s = Z.of_nat (q_refits s) /\
+   (forall j, (j < q_refits s)%nat -> Gen_fq_within_tol rid (ratio j) quantile tol = false) /\
+   ((q_broke s = true /\ Gen_fq_within_tol rid (ratio (q_refits s)) quantile tol = true) \/
+    (q_broke s = false /\ q_refits s = Z.to_nat max_iter))).
+Proof. intros He. destruct rid_contract as (C1 & C2 & C3 & C4 & C5 & C6). split; [|split].
+  - intros fuel s. destruct (fq_loop_exact quantile tol max_iter ratio e0 fuel He) as [Hi Hs]. fold s in Hi, Hs.
+    pose proof (fq_inv_in_range s Hi) as Hr. destruct Hi as (H0 & H1 & H2 & Hin). destruct (Hin Hs) as [A B].
+    repeat split; try assumption; lra.
+  - intros s r Hi Hrun Hw. assert (Hf : fq_invf anyR s) by (unfold fq_invf, anyR; auto).
+    assert (HD := fq_body_direction rid anyR). cbv zeta in HD.
+    destruct (HD ltac:(assumption) ltac:(assumption) ltac:(assumption) ltac:(assumption) quantile tol r max_iter s Hf Hrun Hw) as (_ & Hd & Ht).
+    destruct (running_flags _ _ Hrun) as (_ & Hst & _).
+    assert (Hs' : q_stalled (fq_body rid quantile tol r s) = false).
+    { apply (fq_body_exact quantile tol r max_iter s); [split; assumption|exact Hrun]. }
+    destruct (Hd Hs') as (D1 & D2 & D3 & D4 & D5). cbv zeta.
+    repeat split; try (apply D1; assumption); try (apply D2; assumption); try assumption.
+  - pose proof (fq_exit rid quantile tol max_iter ratio e0) as Hx. cbv zeta in Hx. destruct Hx as (X1 & X2 & X3 & X4 & X5).
+    destruct (fq_loop_exact quantile tol max_iter ratio e0 (Z.to_nat max_iter) He) as [_ Hs].
+    cbv zeta. repeat split; try assumption.
+    destruct X5 as [(A & _ & B)|[(A & B & _)|(A & _ & B)]]; [left; split; assumption|congruence|right; split; assumption]. Qed.
